@@ -13,6 +13,7 @@ PROPERTY FailedStepIsNoop
 PROPERTY EditTouchesNothingPersisted
 PROPERTY WipeIsFreshSetupWithWhatTheUserGave
 PROPERTY ChoiceChangeKeepsValidValue
+PROPERTY SubChoiceChangeKeepsExplicitValue
 PROPERTY NewOptionGetsDefault
 PROPERTY RangeChangeKeepsValidValue
 PROPERTY ProcessedRangeIsTheDeclaredOne
